@@ -108,10 +108,13 @@ const (
 	failStrayBreak
 	failStrayContinue
 	failThrowEmpty // throw "": an empty message is a throw like any other
+	// throw "execution interrupted": a script error is a script error whatever its
+	// text says; only a cancelled context interrupts (and here none is cancelled)
+	failThrowInterruptText
 	numFail
 )
 
-var failNames = [...]string{"none", "throw", "undefined-name", "return", "failing-host-call", "close-closed-channel", "stray-break-in-callee", "stray-continue-in-callee", "throw-empty-string"}
+var failNames = [...]string{"none", "throw", "undefined-name", "return", "failing-host-call", "close-closed-channel", "stray-break-in-callee", "stray-continue-in-callee", "throw-empty-string", "throw-text-of-the-interrupt-error"}
 
 const failTag = 1
 
@@ -127,6 +130,8 @@ func (g *gen) failStmt(kind int) []ir.Stmt {
 		return []ir.Stmt{ir.ExprStmt{X: ir.Boom{ID: g.id()}, Tag: failTag}}
 	case failThrowEmpty:
 		return []ir.Stmt{ir.Throw{X: ir.S(""), Tag: failTag}}
+	case failThrowInterruptText:
+		return []ir.Stmt{ir.Throw{X: ir.S("execution interrupted"), Tag: failTag}}
 	case failStrayBreak:
 		return []ir.Stmt{ir.ExprStmt{X: ir.Call{Fn: &ir.FuncLit{Body: []ir.Stmt{ir.Break{}}}}, Tag: failTag}}
 	case failStrayContinue:
